@@ -127,8 +127,11 @@ def monitor(case: dict, r: dict) -> list[tuple[str, str]]:
             fails.append(("deploy-twice-same-object", f"{d}"))
         if len(d.get("undeploy-enter", [])) > 1:
             fails.append(("undeploy-twice", f"{n} object {o} undeployed twice"))
-        if "undeploy-enter" in d and "deploy-exit" not in d:
-            fails.append(("undeploy-of-not-deployed", f"{d}"))
+        if "undeploy-enter" in d and not ("deploy-exit" in d and d["deploy-exit"][0] < d["undeploy-enter"][0]):
+            by_undeploy = any(op[1] == "ev-set" and op[2] == n and _is_undeploy_task(r, op[0])
+                              for op in _ops_between(r, d["deploy-enter"][0], d["undeploy-enter"][0])) if "deploy-enter" in d else False
+            fails.append((KA if by_undeploy else "undeploy-of-not-deployed",
+                          f"{n} object {o}: undeploy() entered at {d['undeploy-enter'][0]} while its deploy() had not completed: {d}"))
         if "deploy-enter" in d:
             t = d["deploy-enter"][0]
             for o2, d2 in obj.items():
@@ -265,6 +268,8 @@ def protocol_a(case: dict, r: dict) -> tuple[list[str], list[str], list[str]]:
             cls = "undeploy-call"
         elif task.startswith("Task-") and names and names[-1] in ("ev-set", "deps.discard", "deployments_map.keys"):
             cls = "end-ok"            # child of undeploy_all finished (its parent logs the request end)
+        elif task.startswith("Task-") and not names and sg["why"] == "ev-wake":
+            cls = "end-exc"           # child of undeploy_all woken into a KeyError (its map entries are gone)
         else:
             cls = "silent"
         lines.append(f"A {act} {p}")
